@@ -50,6 +50,12 @@ check("C09",
       "TLA+ spec (QTomo + exact rational least squares) model-checked with TLC; replay of TLC-emitted datasets and exact estimates into the implementation",
       "DESIGN.md §4 C09")
 
+check("C12",
+      "TLC (MC_C12 over QLoss) computes per configuration, dataset, weighting mode and point the exact squared-error value / gradient / Hessian, the relative-entropy value as a list of coef*log(num/den) terms with per-row gradient and Hessian coefficients, and the exact weights of every mode (inverse sample / unbiased covariance by rational matrix inversion); invariants: exact central differences of the quadratic reproduce gradient and Hessian, weights symmetric, every non-identity mode changes the weights, the inverse-covariance weight inverts the regularised block, Hessian coefficients non-negative and consistent with gradient coefficients. Binding: generic and tomography-specialised losses of both families, configured through set_from_standard_qtomography_option_data, must reproduce value, gradient, Hessian and the weights held after configuration; fast = generic; finite differences of the reported value / gradient match the reported gradient / Hessian.",
+      "Trusted: QLoss formulas as the reading of the property; model matrix via C08; dyadic data so that TLC's 32-bit rationals suffice; uniform outcome counts per configuration.",
+      "TLA+ spec (QLoss over exact rationals) model-checked with TLC; replay of TLC-emitted exact loss quantities into four loss implementations",
+      "DESIGN.md §4 C12")
+
 ALL = ["C%02d" % i for i in range(1, 21)]
 
 def main():
